@@ -210,7 +210,8 @@ def opPlan (j : Json) : Except String Json := do
     return okJ (Json.arr ((plan floatTime m c o).map floatBits).toArray)
 
 def callStr : Call Float → String
-  | .proc dt => s!"p {dt.toBits.toNat}"
+  | .proc dt 0 => s!"p {dt.toBits.toNat}"
+  | .proc dt c => s!"p {dt.toBits.toNat} c{c}"
   | .sens id => s!"s {id}"
 
 def jReading (j : Json) : Except String (Float × Nat) := do
@@ -229,21 +230,21 @@ def opTicks (j : Json) : Except String Json := do
       let out ← jFloat (← t.getObjVal? "out")
       let rs ← jList jReading (← t.getObjVal? "readings")
       let given := (t.getObjVal? "control" >>= fun a => a.getBool?).toOption.getD true
-      return (out, rs, given)) (← j.getObjVal? "history")
-  let F := traceFilter Float
+      let cid := (t.getObjVal? "control_id" >>= fun a => a.getNat?).toOption.getD 0
+      return (out, rs, given, cid)) (← j.getObjVal? "history")
   let enc (l : List (Call Float)) : Json := Json.arr (l.map fun c => Json.str (callStr c)).toArray
   let mut outs : Array Json := #[]
   if rt == "py" then
     let mut self : PyManaged Float (List (Call Float)) := ⟨t0, []⟩
-    for (out, rs, given) in hist do
-      match pyTick floatTime F m hasControl given self out rs with
+    for (out, rs, given, cid) in hist do
+      match pyTick floatTime (traceFilter Float cid) m hasControl given self out rs with
       | .ok (self', est) => self := self'; outs := outs.push (enc est)
       | .error _ => outs := outs.push (Json.str "missing-control")
     return okJ (Json.mkObj [("outs", Json.arr outs), ("held_time", floatBits self.current_time), ("held", enc self.state)])
   else
     let mut st : CppState Float (List (Call Float)) := ⟨t0, []⟩
-    for (out, rs, _) in hist do
-      let (st', est) := cppTick floatTime F m st out rs
+    for (out, rs, _, cid) in hist do
+      let (st', est) := cppTick floatTime (traceFilter Float cid) m st out rs
       st := st'; outs := outs.push (enc est)
     return okJ (Json.mkObj [("outs", Json.arr outs), ("held_time", floatBits st.currentTime), ("held", enc st.state)])
 
